@@ -319,6 +319,63 @@ def fixed_points(spec_rules: list[dict]) -> tuple[list[Violation], dict]:
 	return violations, cov
 
 
+HISTORY_SENTENCES = [
+	'return\n', 'return a\n', 'pass\n', 'x = None\n', 'x = a and b or not c\n', 'x = a if b else c\n', 'x = a is not b\n', 'x = a not in b\n',
+	'if a:\n\tbreak\nelse:\n\tcontinue\n', 'for i in a:\n\tpass\n', 'while a:\n\tpass\n', 'x = lambda: a\n', 'class A:\n\tpass\n',
+	'def f() -> None:\n\treturn\n', 'raise a from b\n', 'x = [i for i in a if i]\n', 'entry = symbol\n', 'rule = expr\n', 'name = string\n',
+]
+
+
+def _history_job(order: list[str]) -> dict:
+	"""One fresh process: the three activities in the given order; what each of them yields must not depend on the order
+	(parsing is a function of rule set and text - in MetaGram.tla there is no history to depend on)"""
+	from data.syntax.py_rules import py_rules
+	from rogw.tranp.errors import Errors
+	eng = _engine()
+	root = os.path.join(compat.REPO, 'data', 'syntax')
+	out: dict = {}
+	for act in order:
+		try:
+			if act in ('gram.lark', 'py_gram.lark'):
+				tree = eng['meta'].parse(open(os.path.join(root, act), encoding='utf-8').read(), 'entry')
+				out[act] = repr(rules_struct(eng['Rules'].from_ast(tree.simplify())))
+			else:
+				parser = eng['SyntaxParser'](py_rules(), eng['Tokenizer']())
+				res = []
+				for text in HISTORY_SENTENCES:
+					try:
+						res.append(repr(listify(parser.parse(text, 'entry').simplify())))
+					except Errors.Syntax as e:
+						res.append(f'Syntax: {str(e).splitlines()[0]}')
+				out[act] = res
+		except Exception as e:
+			out[act] = f'{type(e).__name__}: {str(e).splitlines()[0][:160]}'
+	return out
+
+
+def history_independence() -> tuple[list[Violation], int]:
+	from concurrent.futures import ProcessPoolExecutor
+	acts = ['gram.lark', 'py_gram.lark', 'sentences']
+	orders = [list(p) for p in itertools.permutations(acts)]
+	with ProcessPoolExecutor(max_workers=6, max_tasks_per_child=1) as ex:
+		results = list(ex.map(_history_job, orders))
+	violations = []
+	base = results[0]
+	for order, res in zip(orders[1:], results[1:]):
+		for act in acts:
+			if res[act] != base[act]:
+				if isinstance(res[act], list) and isinstance(base[act], list):
+					k = next(i for i, (a, b) in enumerate(zip(res[act], base[act])) if a != b)
+					detail = f'{HISTORY_SENTENCES[k]!r} parses to {res[act][k][:120]} after {order[:order.index(act)]} and to {base[act][k][:120]} after {orders[0][:orders[0].index(act)]}'
+				else:
+					detail = f'compiling / parsing {act} gives {str(res[act])[:160]} after {order[:order.index(act)]}, {str(base[act])[:80]}... when it comes first'
+				violations.append(Violation(f'HistoryIndependent:{act}', 'HistoryIndependent', detail, {'order': order, 'activity': act}))
+				break
+		if violations:
+			break
+	return violations, len(orders)
+
+
 def run(ctx: Ctx) -> int:
 	quick = ctx.quick
 	laws = {}
@@ -359,6 +416,9 @@ def run(ctx: Ctx) -> int:
 	if drift:
 		ctx.log(f'NOTE: the code departs from the specification on {stats["tree_differs_from_spec"]} meta-parse trees / {stats["structure_differs_from_spec"]} pattern structures (e.g. {drift[0][:300]}); the TLC proof does not speak for those cases, the direct round-trip and sentence clauses decide')
 	violations, fcov = fixed_points(spec_rules)
+	hviolations, horders = history_independence()
+	violations += hviolations
+	fcov['history_orders'] = horders
 	groups: dict[str, list] = {}
 	for f in failures:
 		groups.setdefault(f'{f["clause"]}:{f["kind"]}', []).append(f)
